@@ -45,6 +45,13 @@ def frag(rnd):
         '(debug-print (string:join (map \'list to-string (keys (sorted-map %s))) ","))' % kv,
         '(defun f%d (&key %s) (list %s)) (debug-print (f%d))' % (rnd.randrange(1000), " ".join(k.lower().strip("_") or "q" for k in ks[:3]), " ".join(k.lower().strip("_") or "q" for k in ks[:3]), 0) if False else '(debug-print (stable-sort string< (list %s)))' % " ".join('"%s"' % k for k in ks),
         '(debug-stack)',
+        # several things wrong at once: WHICH one is reported must not vary
+        '(defun cfgf (&key host port) (list host port)) (handler-bind ((condition (lambda (c &rest r) (debug-print c r) r))) (cfgf :zeta 1 :host "h" :omega 2 :timeout 3 :alpha 4))',
+        '(defun cfgg (a &key k) (list a k)) (cfgg 1 :u 1 :v 2 :w 3 :x 4 :y 5)',
+        '((lambda (&key a) a) :q 1 :r 2 :s 3 :t 4)',
+        '(handler-bind ((condition (lambda (c &rest r) (debug-print c r) r))) (sorted-map (vector 1) 1 (list 2) 2 1.5 3))',
+        '(handler-bind ((condition (lambda (c &rest r) (debug-print c r) r))) (let ((a (unbound-one)) (b (unbound-two))) a))',
+        '(s:validate (s:make-validator "t" s:sorted-map (s:has-key "a" s:int) (s:has-key "b" s:int) (s:has-key "c" s:int)) (sorted-map "z" 1))',
         '(debug-print (assoc (sorted-map %s) "new" (sorted-map %s)))' % (kv, skv),
         '(car (unbound-%d))' % rnd.randrange(9),
         # errors and stacks that carry the NAME of an anonymous function
